@@ -150,7 +150,7 @@ ClientStart(i) ==
                                [hdr |-> <<Hd("HR")>>, len |-> <<Hd("len")>>, ekem |-> <<KemPk("kc" \o S(i))>>, skemct |-> <<KemCt(SCfg[c.skem].kem, r)>>,
                                 certs |-> Enc(t3, CertT(c.cert)), tag |-> t4, ts |-> Enc(t4, Ts(S(clock))), mac |-> t5])]
                 /\ ctr' = ctr + 1
-    /\ hist' = Append(hist, [s |-> i, hop |-> "start", mv |-> "ok", f |-> "-", alt |-> FALSE])
+    /\ hist' = Append(hist, [s |-> i, hop |-> "start", mv |-> "ok", f |-> "-", alt |-> FALSE, ns |-> 0, sent |-> 0])
     /\ UNCHANGED <<scen, sv, old, clock, moves>>
 
 Fail(i, m) == cl' = [cl EXCEPT ![i].st = "fail", ![i].alt = @ \/ m.alt]
@@ -342,6 +342,7 @@ InTurn(i, h) == ~Sync \/ (/\ \A j \in Sess : cl[j].st # "idle"
                           /\ \A j \in Sess, g \in Hops : out[j][g] # NoMsg => Rank(i, h) <= Rank(j, g))
 OtherMsg(i, h) == IF out[OtherSess(i)][h] # NoMsg THEN out[OtherSess(i)][h] ELSE old[OtherSess(i)][h]
 
+Tables(x) == Cardinality(x.hs) + Cardinality(x.sess)     \* tracked handshakes + sessions of one server
 (* Step(i, h, mv): the message waiting on hop h of session i travels with adversary move mv. *)
 Delivered(i, h, mv, m0) ==
     CASE mv.k = "ok"     -> m0
@@ -366,31 +367,33 @@ Step(i, h, mv) ==
        IN /\ moves + cost <= MaxMoves
           /\ moves' = moves + cost
           /\ old' = [old EXCEPT ![i][h] = out[i][h]]
-          /\ hist' = Append(hist, [s |-> i, hop |-> h, mv |-> mv.k, f |-> mv.f, alt |-> mv.k # "drop" /\ md.alt])
           /\ UNCHANGED <<scen, clock>>
           /\ IF mv.k = "drop" THEN out' = ob /\ UNCHANGED <<cl, sv, ctr>>
              ELSE Receive(i, h, md, ob)
+          /\ hist' = Append(hist, [s |-> i, hop |-> h, mv |-> mv.k, f |-> mv.f, alt |-> mv.k # "drop" /\ md.alt,
+                                   ns |-> Tables(sv'[Dial[i]]), sent |-> sv'[Dial[i]].sent])
 
 (* Replay(i, h): a message that already travelled hop h of session i is delivered again.     *)
 Replay(i, h) ==
     /\ old[i][h] # NoMsg /\ out[i][h] = NoMsg
     /\ moves + 1 <= MaxMoves /\ moves' = moves + 1
-    /\ hist' = Append(hist, [s |-> i, hop |-> h, mv |-> "replay", f |-> "-", alt |-> FALSE])
     /\ UNCHANGED <<scen, old, clock>>
     /\ Receive(i, h, WithSrc(i, h, old[i][h]), out)
+    /\ hist' = Append(hist, [s |-> i, hop |-> h, mv |-> "replay", f |-> "-", alt |-> FALSE,
+                             ns |-> Tables(sv'[Dial[i]]), sent |-> sv'[Dial[i]].sent])
 
 (* Rotate(s): the server's cookie key is replaced (2-minute ticker in Serve).                *)
 Rotate(s) == /\ sv[s].epoch = 0 /\ moves + 1 <= MaxMoves /\ moves' = moves + 1
              /\ \E i \in Sess : Dial[i] = s /\ Mode[i] = "disc"
              /\ sv' = [sv EXCEPT ![s].epoch = 1]
-             /\ hist' = Append(hist, [s |-> 0, hop |-> "rotate", mv |-> s, f |-> "-", alt |-> FALSE])
+             /\ hist' = Append(hist, [s |-> 0, hop |-> "rotate", mv |-> s, f |-> "-", alt |-> FALSE, ns |-> 0, sent |-> 0])
              /\ UNCHANGED <<scen, cl, out, old, clock, ctr>>
 
 (* Tick: more than the timestamp window passes.                                              *)
 Tick == /\ clock = 0 /\ moves + 1 <= MaxMoves /\ moves' = moves + 1
         /\ \E i \in Sess : Mode[i] = "hid"
         /\ clock' = 1
-        /\ hist' = Append(hist, [s |-> 0, hop |-> "tick", mv |-> "-", f |-> "-", alt |-> FALSE])
+        /\ hist' = Append(hist, [s |-> 0, hop |-> "tick", mv |-> "-", f |-> "-", alt |-> FALSE, ns |-> 0, sent |-> 0])
         /\ UNCHANGED <<scen, cl, sv, out, old, ctr>>
 
 Moves == {[k |-> "ok", f |-> "-"], [k |-> "drop", f |-> "-"], [k |-> "trunc", f |-> "-"],
